@@ -1306,21 +1306,39 @@ def u_equality(ctx):
             ctx.violation("box-eq-raises", {"a": mrepr(m1), "b": mrepr(m2), "got": [r, ha, hb]})
         elif r and ha != hb:
             ctx.violation("box-eq-hash-disagree-signed-zero", {"a": mrepr(m1), "b": mrepr(m2), "eq": r, "hashes": [ha, hb]})
-    # permuted Dict keys: not asserted, must answer
-    for i in range(ctx.n(10, 40)):
-        m = gen_nested(rng, 1, root="dict")
+    # permuted Dict keys: whether they are "equal structure" is not asserted either way, but the answer must
+    # come without raising and, whatever it is, agree with hashing (a == b implies hash(a) == hash(b)),
+    # also when the permuted Dict sits inside a Tuple or another Dict
+    for i in range(ctx.n(30, 120)):
+        m = gen_nested(rng, 1 + i % 2, root="dict")
         if len(m["items"]) < 2:
             continue
-        m2 = {"k": "dict", "items": list(reversed(m["items"]))}
-        st, r = eq_call(build(m), build(m2))
-        ctx.monitor("permuted_dict_pairs_not_asserted")
-        if st != "ok":
+        perm = list(reversed(m["items"])) if i % 3 else [m["items"][int(t)] for t in rng.permutation(len(m["items"]))]
+        if [k for k, _ in perm] == [k for k, _ in m["items"]]:
+            perm = list(reversed(m["items"]))
+        m2 = {"k": "dict", "items": perm}
+        if i % 4 == 1:
+            m, m2 = ({"k": "tuple", "items": [{"k": "discrete", "n": 2}, m]}, {"k": "tuple", "items": [{"k": "discrete", "n": 2}, m2]})
+        elif i % 4 == 3:
+            m, m2 = ({"k": "dict", "items": [("outer", m)]}, {"k": "dict", "items": [("outer", m2)]})
+        a, b = build(m), build(m2)
+        ctx.case({"a": mrepr(m), "b": mrepr(m2), "rel": "permuted-dict-keys"}, nontrivial=True, cls="eq/permuted-dict-keys")
+        st, r = eq_call(a, b)
+        st2, r2 = eq_call(b, a)
+        (sa, ha), (sb, hb) = hash_call(a), hash_call(b)
+        ctx.monitor("permuted_dict_pairs_judged_for_hash_agreement")
+        if st != "ok" or st2 != "ok":
             ctx.violation("dict-eq-raises", {"a": mrepr(m), "b": mrepr(m2), "got": r})
+        elif r != r2:
+            ctx.violation("dict-eq-not-symmetric-permuted-keys", {"a": mrepr(m), "b": mrepr(m2), "ab": r, "ba": r2})
+        elif sa == "ok" and sb == "ok" and r and ha != hb:
+            ctx.violation("dict-eq-hash-disagree-permuted-keys", {"a": mrepr(m), "b": mrepr(m2), "eq": r, "hashes": [ha, hb]})
     ctx.require("equal_pairs_judged", 100)
     ctx.require("unequal_pairs_judged_without_dict", 200)
     ctx.require("hash_pairs_judged", 100)
     ctx.require("foreign_eq_judged", 300)
     ctx.require("signed_zero_pairs_judged", 10)
+    ctx.require("permuted_dict_pairs_judged_for_hash_agreement", 5)
 
 
 # ---------------------------------------------------------------------------------- Gymnasium round trip
